@@ -350,38 +350,15 @@ func (fe *verifFE) lookup(name string) types.Object {
 	return o
 }
 
-// resolve a type expression
+// resolve a type expression (composite forms: typX in zz_verif_c02decl.go)
 func (fe *verifFE) typ(e ast.Expr) types.Type {
-	switch v := e.(type) {
-	case *ast.Ident:
-		if tn, ok := fe.lookup(v.Name).(*types.TypeName); ok {
+	if id, ok := e.(*ast.Ident); ok {
+		if tn, ok := fe.lookup(id.Name).(*types.TypeName); ok {
 			return tn.Type()
 		}
-	case *ast.ParenExpr:
-		return fe.typ(v.X)
-	case *ast.StarExpr:
-		return types.NewPointer(fe.typ(v.X))
-	case *ast.ArrayType:
-		if v.Len == nil {
-			return types.NewSlice(fe.typ(v.Elt))
-		}
-		n, _ := strconv.Atoi(v.Len.(*ast.BasicLit).Value)
-		return types.NewArray(fe.typ(v.Elt), int64(n))
-	case *ast.MapType:
-		return types.NewMap(fe.typ(v.Key), fe.typ(v.Value))
-	case *ast.ChanType:
-		dir := types.SendRecv
-		switch v.Dir {
-		case ast.SEND:
-			dir = types.SendOnly
-		case ast.RECV:
-			dir = types.RecvOnly
-		}
-		return types.NewChan(dir, fe.typ(v.Value))
-	case *ast.FuncType:
-		return fe.sig(v)
+		panic(verifErr("front end: " + id.Name + " is not a type"))
 	}
-	panic(verifErr("front end: unsupported type expression"))
+	return fe.typX(e)
 }
 
 func (fe *verifFE) isType(e ast.Expr) bool {
@@ -394,41 +371,13 @@ func (fe *verifFE) isType(e ast.Expr) bool {
 		return fe.isType(v.X)
 	case *ast.StarExpr:
 		return fe.isType(v.X)
-	case *ast.ArrayType, *ast.MapType, *ast.ChanType, *ast.FuncType:
+	case *ast.ArrayType, *ast.MapType, *ast.ChanType, *ast.FuncType, *ast.StructType, *ast.InterfaceType:
 		return true
 	}
 	return false
 }
 
-func (fe *verifFE) tuple(fl *ast.FieldList) (*types.Tuple, bool) {
-	if fl == nil {
-		return nil, false
-	}
-	var vs []*types.Var
-	variadic := false
-	for _, fld := range fl.List {
-		var t types.Type
-		if el, ok := fld.Type.(*ast.Ellipsis); ok {
-			t = types.NewSlice(fe.typ(el.Elt))
-			variadic = true
-		} else {
-			t = fe.typ(fld.Type)
-		}
-		if len(fld.Names) == 0 {
-			vs = append(vs, types.NewParam(token.NoPos, fe.pkg.Types, "", t))
-		}
-		for _, n := range fld.Names {
-			vs = append(vs, types.NewParam(token.NoPos, fe.pkg.Types, n.Name, t))
-		}
-	}
-	return types.NewTuple(vs...), variadic
-}
-
-func (fe *verifFE) sig(ft *ast.FuncType) *types.Signature {
-	params, variadic := fe.tuple(ft.Params)
-	results, _ := fe.tuple(ft.Results)
-	return types.NewSignatureType(nil, nil, nil, params, results, variadic)
-}
+func (fe *verifFE) sig(ft *ast.FuncType) *types.Signature { return fe.sigX(ft) }
 
 func verifTwoValued(e ast.Expr) bool {
 	switch v := e.(type) {
@@ -910,6 +859,16 @@ func (fe *verifFE) stmt(s ast.Stmt) {
 	}
 }
 
+func verifErrText(v interface{}) string {
+	if e, ok := v.(error); ok {
+		return e.Error()
+	}
+	if s, ok := v.(string); ok {
+		return s
+	}
+	return "?"
+}
+
 func verifFindFunc(f *ast.File, name string) *ast.FuncDecl {
 	for _, d := range f.Decls {
 		if fd, ok := d.(*ast.FuncDecl); ok && fd.Name.Name == name {
@@ -978,7 +937,7 @@ func VerifH_C02_roundtrip() {
 	pkg := NewPackage("", "p", conf)
 	fe := &verifFE{pkg: pkg, labels: map[string]*Label{}}
 	var out bytes.Buffer
-	class := vp.Try(func() {
+	class, perr := vp.TryVal(func() {
 		fe.cb = pkg.NewFunc(nil, "body2", nil, nil, false).BodyStart(pkg)
 		fe.declareLabels(orig.Body.List)
 		fe.stmts(orig.Body.List)
@@ -987,9 +946,10 @@ func VerifH_C02_roundtrip() {
 			panic(err)
 		}
 	})
-	vp.Assert("C17.roundtrip.nofault", class != vp.FaultPanic && class != vp.OtherPanic)
+	vp.Assert("C17.roundtrip.nofault", class != vp.FaultPanic)
 	vp.Assert("C02.roundtrip.accepted", class == vp.NoPanic)
 	if class != vp.NoPanic {
+		vp.Observe("error", verifErrText(perr))
 		return
 	}
 	text := out.String()
